@@ -151,3 +151,65 @@ example : notNaN 0x3e800000 ∧ notNaN 0x3f000000 ∧ f32le 0x3e800000 0x3f00000
   unfold notNaN f32le; omega
 
 end C05
+
+/-! ## the 16-bit ProPhoto encoder: monotone on its table branch (`min ≤ b ≤ max`) -/
+namespace C05
+open Lut
+
+theorem prophoto_chain : chainOK 16 Gen.Lut.prophotoEnc = true := by decide +kernel
+
+def cellAt16 (l : List Nat) (i t : Nat) : Nat := cellRes 16 (l.getD i 0) t
+
+theorem cellAt16_first_mono (l : List Nat) (h : chainOK 16 l = true) : ∀ (d i : Nat), i + d < l.length → cellAt16 l i 0 ≤ cellAt16 l (i + d) 0
+  | 0, i, _ => Nat.le_refl _
+  | d + 1, i, hi => by
+    have h1 : cellAt16 l i 0 ≤ cellAt16 l (i + d) 0 := cellAt16_first_mono l h d i (by omega)
+    have h2 : cellAt16 l (i + d) 0 ≤ cellAt16 l (i + d) (2^16 - 1) := cellRes_mono_t 16 _ (Nat.zero_le _)
+    have h3 := chainOK_get 16 l h (i + d) (by omega)
+    have e : i + (d + 1) = i + d + 1 := by omega
+    rw [e]; exact Nat.le_trans h1 (Nat.le_trans h2 h3)
+
+theorem cellAt16_lex_mono (l : List Nat) (h : chainOK 16 l = true) (i t i' t' : Nat) (hi' : i' < l.length) (ht : t ≤ 65535)
+    (hlex : i < i' ∨ (i = i' ∧ t ≤ t')) : cellAt16 l i t ≤ cellAt16 l i' t' := by
+  rcases hlex with hlt | ⟨rfl, hle⟩
+  · have h1 : cellAt16 l i t ≤ cellAt16 l i (2^16 - 1) := cellRes_mono_t 16 _ (by omega)
+    have h2 := chainOK_get 16 l h i (by omega)
+    have h3 : cellAt16 l (i + 1) 0 ≤ cellAt16 l (i + 1 + (i' - (i + 1))) 0 := cellAt16_first_mono l h (i' - (i + 1)) (i + 1) (by omega)
+    have e : i + 1 + (i' - (i + 1)) = i' := by omega
+    rw [e] at h3
+    have h4 : cellAt16 l i' 0 ≤ cellAt16 l i' t' := cellRes_mono_t 16 _ (Nat.zero_le _)
+    exact Nat.le_trans h1 (Nat.le_trans h2 (Nat.le_trans h3 h4))
+  · exact cellRes_mono_t 16 _ hle
+
+/-- cell coordinates of the 16-bit encoder: `i = (b − min) >>> 16`, `t = b &&& 0xffff = (b − min) % 65536` (`min` aligned to 2¹⁶) -/
+theorem cell_coords16 (b : Nat) (hb : Gen.Lut.prophotoMinFloat ≤ b) :
+    cellIndex Gen.Lut.prophotoMinFloat 7 b = (b - Gen.Lut.prophotoMinFloat) / 65536 ∧ cellT 16 7 b = (b - Gen.Lut.prophotoMinFloat) % 65536 := by
+  have hal : Gen.Lut.prophotoMinFloat % 2^16 = 0 := geometry.2.2.2.2.2.2.2.2
+  unfold cellIndex cellT
+  rw [Nat.and_two_pow_sub_one_eq_mod]
+  simp only [Nat.shiftRight_eq_div_pow]
+  have p16 : (2:Nat)^(23 - 7) = 65536 := by decide
+  have p0 : (2:Nat)^(23 - 7 - 16) = 1 := by decide
+  have p16' : (2:Nat)^16 = 65536 := by decide
+  simp only [p16, p0, Nat.div_one]
+  -- `min` is a multiple of 65536 (decided in `geometry`): write it as `65536·k`
+  obtain ⟨k, hk⟩ : ∃ k, Gen.Lut.prophotoMinFloat = 65536 * k := ⟨Gen.Lut.prophotoMinFloat / 65536, by rw [p16'] at hal; omega⟩
+  rw [hk] at hb ⊢
+  refine ⟨trivial, ?_⟩
+  omega
+
+/-- **monotone on the table branch**: for `min ≤ b ≤ b' ≤ max`, the raw interpolation result is monotone — 16-bit ProPhoto encoder.
+    (Partial: the linear segment below `min_float` is `(scale·x + 2²³).to_bits() & 0xffff`, whose monotonicity is a statement about
+    float rounding; it and the join are covered by the exhaustive 2³² scan of the thorough tier.) -/
+theorem prophoto_encodeClamped_mono_partial (b b' : Nat) (h0 : Gen.Lut.prophotoMinFloat ≤ b) (h1 : b ≤ b') (h2 : b' ≤ Gen.Lut.maxFloatBits) :
+    encodeClamped Gen.Lut.prophotoEnc Gen.Lut.prophotoMinFloat 16 7 b ≤ encodeClamped Gen.Lut.prophotoEnc Gen.Lut.prophotoMinFloat 16 7 b' := by
+  obtain ⟨ci, ct⟩ := cell_coords16 b h0
+  obtain ⟨ci', ct'⟩ := cell_coords16 b' (Nat.le_trans h0 h1)
+  have hidx' := index_in_bounds_u16 b' (Nat.le_trans h0 h1) h2
+  unfold encodeClamped
+  show cellAt16 _ (cellIndex _ 7 b) (cellT 16 7 b) ≤ cellAt16 _ (cellIndex _ 7 b') (cellT 16 7 b')
+  apply cellAt16_lex_mono _ prophoto_chain _ _ _ _ hidx'
+  · rw [ct]; omega
+  · rw [ci, ct, ci', ct']; omega
+
+end C05
